@@ -86,6 +86,40 @@ theorem imports_attained (bodyReq modelOpsets : List (String × Nat)) (d : Strin
   · simp [getV] at h0
   · exact h1
 
+/-- **One opset per domain, model and functions alike.** The body requirements of a function are part
+    of the model's requirements (`Function.opset_req` includes its body build's; `compile_graph`
+    merges them). Then, for every domain the model imports, the function imports exactly the model's
+    version. -/
+theorem imports_agree_with_model (bodyReq modelReq : List (String × Nat))
+    (hsub : ∀ p ∈ bodyReq, p ∈ modelReq) (d : String) (m : Nat)
+    (hm : getV (policy modelReq) d = some m) :
+    getV (funcImports bodyReq (policy modelReq)) d = some m := by
+  have hk := policy_kinv modelReq
+  have hmem : (d, m) ∈ policy modelReq := lookup_isSome_mem (κ := String) (β := Nat) hm
+  have hnd : norm d = d := hk.normed d (List.mem_map.mpr ⟨(d, m), hmem, rfl⟩)
+  obtain ⟨v', hv', hle⟩ := imports_cover_model bodyReq (policy modelReq) (d, m) hmem
+  simp only [hnd] at hv'
+  obtain ⟨p, hp, hpd, hpv⟩ := imports_attained bodyReq (policy modelReq) d v' hv'
+  have hge : v' ≤ m := by
+    rcases List.mem_append.mp hp with hb | hM
+    · obtain ⟨w, hw, hpw⟩ := fold_ge modelReq [] p (hsub p hb)
+      rw [hpd] at hw
+      have : w = m := by
+        have h' : getV (policy modelReq) d = some w := hw
+        rw [hm] at h'; exact (Option.some.inj h').symm
+      omega
+    · obtain ⟨d', w⟩ := p
+      simp only at hpd hpv
+      have hd' : norm d' = d' := hk.normed d' (List.mem_map.mpr ⟨(d', w), hM, rfl⟩)
+      have hdd : d' = d := by rw [← hd', hpd]
+      subst hdd
+      have := getV_of_mem hk hM
+      rw [hm] at this
+      have : m = w := Option.some.inj this
+      omega
+  have : v' = m := by omega
+  rw [hv', this]
+
 open FuncSem in
 /-- **A call means its body.** For any operator semantics `S`, any straight-line program with function
     calls at any number of call sites and any nesting depth: if the build produces a function table
